@@ -91,9 +91,12 @@ def gen_cases(tier, seed):
         ml = rng.choice([None, None, 0, 1, 2, 3, 4, gen.theight(t) + 1])
         bound = lambda: rng.choice([None, None, 0, 1, 2, 3, rng.randint(0, n + 1)])
         fn = rng.choice(list(FN))
-        attrs = [(x, rng.randint(0, 1)) for x in labs if rng.random() < 0.6]
-        cases.append(mk(fn, t, cached=rng.random() < 0.5, filt=filt, stop=stop, ml=ml, lo=bound(), hi=bound(),
-                        attrs=attrs, value=rng.randint(0, 1)))
+        vals = [0, 1, 0, 1, 97, 96, 99]          # 97 = the tuple (0, 1), 96 = the list [0], 99 = None
+        attrs = [(x, rng.choice(vals)) for x in labs if rng.random() < 0.6]
+        c = mk(fn, t, cached=rng.random() < 0.5, filt=filt, stop=stop, ml=ml, lo=bound(), hi=bound(),
+               attrs=attrs, value=rng.choice(vals))
+        c["pct"] = rng.random() < 0.3
+        cases.append(c)
     gen.sprinkle_adv(cases)
     k = 0
     for c in cases:
